@@ -108,6 +108,7 @@ def drain_loops(stmts):
 def run_shard(spec, acc):
     lib = _lib()
     con = _contracts()
+    acc.count('prior_runs_without_globals', exec_prog.prior_runs())
     if spec['part'] == 'shapes':
         n = 0
         for ix, chain in enumerate(gen_prog.shapes(spec['depth'])):
